@@ -32,6 +32,7 @@ var c19Paths = []string{
 	"$.a.b[0] x", "$.a['b',", "$[?(@.a[?(@.b == 1) x])]", "$[?(@.a == 1 && )]", "$.a.f1() x", "$[?(@.a.f1() == 1)] y", "$.a[0:1:2:3]", "", "@", "$[?(@.a == 'x)]",
 	"$[?(@.a.g1().g1() == 1)]", "$[?(1 < 2)]", "$[?($.a > $.b)]",
 	// backslash sequences inside string literals and regular expressions (whatever they mean, they mean it on every call)
+	"$[::5]", "$[0:10:5]", "$[9:0:-4]", "$[*][::5]",
 	`$[?(@.a == 'x\ny')]`, `$[?(@.a == "x\ty")]`, `$[?(@.a == 'x\\ny')]`, `$[?(@.a == 'x\'y')]`, `$[?(@.a =~ /x\ny/)]`, `$[?(@.a == 'x\u0041y')]`,
 }
 
@@ -87,21 +88,87 @@ var c19Probes = []string{
 	`{"a":[1,2,3],"b":{"a":"x"}}`,
 	`[{"a":1,"b":2},{"a":2},{"b":{"a":[3]}}]`,
 	`{"a":{"b":[{"c":1}]},"f1":1}`,
+	`[0,1,2]`, `[0,1,2,3,4,5,6,7,8,9,10,11]`, `[[0],[0,1,2,3,4,5,6,7,8,9,10,11,12,13],[0,1,2]]`,
 	`[{"a":"x\ny","i":0},{"a":"xny","i":1},{"a":"x\ty","i":2},{"a":"xty","i":3},{"a":"x\\ny","i":4},{"a":"x'y","i":5},{"a":"xAy","i":6},{"a":"xu0041y","i":7}]`,
 }
 
-// c19Behaviour describes what a parsed function does on the probe documents.
+// c19Inconsistent is set when a parsed function answered differently for one probe document
+// depending on which probes it had seen before.
+var c19Inconsistent string
+
+// c19Behaviour describes what a parsed function does on the probe documents. The probes are
+// evaluated in order and then once more in reverse order: the answer for a document must not
+// depend on the documents the function saw before.
 func c19Behaviour(f func(interface{}) ([]interface{}, error)) string {
 	var sb strings.Builder
-	for _, p := range c19Probes {
+	one := func(p string) string {
 		got, err := f(gen.MustDecode(p, false))
 		if err != nil {
-			fmt.Fprintf(&sb, "|%s: %s", reflect.TypeOf(err).Name(), err.Error())
-		} else {
-			fmt.Fprintf(&sb, "|%s", JSONString(got))
+			return fmt.Sprintf("|%s: %s", reflect.TypeOf(err).Name(), err.Error())
+		}
+		return "|" + JSONString(got)
+	}
+	first := make([]string, len(c19Probes))
+	for i, p := range c19Probes {
+		first[i] = one(p)
+		sb.WriteString(first[i])
+	}
+	for i := len(c19Probes) - 1; i >= 0; i-- {
+		if again := one(c19Probes[i]); again != first[i] && c19Inconsistent == "" {
+			c19Inconsistent = fmt.Sprintf("a parsed function answered %s for the document %s and, after it had been called on other documents, %s", first[i], c19Probes[i], again)
 		}
 	}
 	return sb.String()
+}
+
+// c19ConfigCopies: Config values derived from one base by plain assignment, each registering one
+// more function of its own: whatever the number of functions the base already holds, a function
+// registered through a copy is found through that copy afterwards, and registering through one
+// copy never removes or replaces what was registered through the other. (Whether the copies
+// also SEE each other's registrations is not asked: copies share the function tables the base
+// had already allocated.)
+func c19ConfigCopies(st *Stats) string {
+	doc := gen.MustDecode(`{"a":1}`, false)
+	for n := 0; n <= 5; n++ {
+		for _, agg := range []bool{false, true} {
+			var base jsonpath.Config
+			for i := 0; i < n; i++ {
+				if agg {
+					base.SetAggregateFunction("b"+strconv.Itoa(i), c19Len)
+				} else {
+					base.SetFilterFunction("b"+strconv.Itoa(i), c19Tagger("base"))
+				}
+			}
+			a, b := base, base
+			if agg {
+				a.SetAggregateFunction("onlyA", func(vs []interface{}) (interface{}, error) { return "A", nil })
+				b.SetAggregateFunction("onlyB", func(vs []interface{}) (interface{}, error) { return "B", nil })
+			} else {
+				a.SetFilterFunction("onlyA", c19Tagger("A"))
+				b.SetFilterFunction("onlyB", c19Tagger("B"))
+			}
+			type probe struct {
+				path string
+				cfg  jsonpath.Config
+				who  string
+				want string // "" = ErrorFunctionNotFound
+			}
+			wa, wb := `[["A",1]]`, `[["B",1]]`
+			if agg {
+				wa, wb = `["A"]`, `["B"]`
+			}
+			for _, p := range []probe{{"$.a.onlyA()", a, "copy A", wa}, {"$.a.onlyB()", b, "copy B", wb}} {
+				got, err := jsonpath.Retrieve(p.path, doc, p.cfg)
+				st.Eval(1)
+				switch {
+				case err != nil || JSONString(got) != p.want:
+					return fmt.Sprintf("Configs copied from a base with %d functions, each given one function of its own: %s with %s returns (%s, %v), expected %s", n, p.path, p.who, JSONString(got), err, p.want)
+				}
+			}
+		}
+	}
+	st.Class("config-copies-independent")
+	return ""
 }
 
 func c19Outcome(d c19Desc) (string, func(interface{}) ([]interface{}, error), *jsonpath.Config) {
@@ -510,6 +577,16 @@ func checkC19Ops(c *Case, st *Stats, descs []c19Desc) string {
 		st.NonTrivialCase(fmt.Sprint(c.Ops), func() interface{} {
 			return map[string]interface{}{"history": hist}
 		})
+	}
+	if c19Inconsistent != "" {
+		msg := c19Inconsistent
+		c19Inconsistent = ""
+		return msg
+	}
+	if len(c.Ops)%4 == 0 {
+		if msg := c19ConfigCopies(st); msg != "" {
+			return msg
+		}
 	}
 	return ""
 }
